@@ -251,4 +251,17 @@ Section GensViews.
       rewrite (nth_error_nth _ _ _ E). unfold chain_take. rewrite map_length, seq_length. exact Hn. }
     split; rewrite (collect_is_view P ch _ n m (Hlen _) (Hrow _)), view_of_table by assumption; reflexivity.
   Qed.
+
+  (* share(j).G(n): the first n stream outputs of party j, for every history; only a prefix of the vector is read *)
+  Theorem share_is_stream_prefix (reqs : list nat) cap pcap j n :
+    let s := fold_left (increase P ch) reqs (new P ch cap pcap) in
+    j < pcap -> n <= g_cap P s ->
+    share_view P (g_G P s) j n = Some (chain_take P ch true j 0 n) /\
+    share_view P (g_H P s) j n = Some (chain_take P ch false j 0 n).
+  Proof.
+    cbv zeta. rewrite history_independent, new_canonical. cbn [g_cap g_G g_H canonical].
+    set (c := fold_left Nat.max reqs cap). intros Hj Hn. unfold share_view, table.
+    rewrite !nth_error_map_seq by exact Hj. cbn [Nat.add]. unfold chain_take.
+    rewrite !firstn_map_seq by exact Hn. auto.
+  Qed.
 End GensViews.
